@@ -59,6 +59,10 @@ def get_dimensionality(
         list: A list of clusters. Each entry in the list contains the indices
             of atoms in a cluster.
     """
+    # The minimum image displacements are only valid for atoms that are inside
+    # the cell: wrap a copy so that the given system is not modified.
+    system = system.copy()
+    system.wrap()
     system_1x = system
     pbc = system_1x.get_pbc()
     num_1x = system_1x.get_atomic_numbers()
